@@ -1,6 +1,7 @@
 import GoDebian.Drv.Util
 import GoDebian.Model.Version
 import GoDebian.Spec.Version
+import GoDebian.Spec.VersionParse
 
 namespace GoDebian.Drv
 open GoDebian GoDebian.Version
@@ -29,10 +30,20 @@ def versionHandler : Handler
       pure (toString (sgn (verrevcmp a b)) ++ " ; spec=" ++ spec)
   | "verparse", [s] => do
       let s ← hx s
-      pure (showRes showVersion (Version.parse s))
+      let spec := match Spec.VersionParse.verdict s with
+        | none => "any"
+        | some .reject => "err"
+        | some (.accept v) => "ok " ++ showVersion v
+      pure (showRes showVersion (Version.parse s) ++ " ; spec=" ++ spec)
   | "verstr", [e, u, r] => do
       let v ← readVersion e u r
       pure (out (Version.toString v))
+  | "verstr0", [e, u, r] => do
+      let v ← readVersion e u r
+      pure (out (Version.stringWithoutEpoch v))
+  | "verjson", [s] => do
+      let s ← hx s
+      pure (showRes showVersion (Version.jsonDecode s))
   | _, _ => none
 
 end GoDebian.Drv
